@@ -6,6 +6,9 @@
 (*       {NULL,a,ab,b}; c4 BOOLEAN over {NULL,T,F}      -> 300 rows         *)
 (*  "B": c1 TINYINT, c2 TINYINT over {NULL,-128,-1,0,1,127}; c3 SMALLINT    *)
 (*       over {NULL,-32768,1,32767}; c4 INT over {NULL,1,300} -> 432 rows   *)
+(*  "C": c1 VARCHAR over {NULL,FOXO,a,a.b,ab,b,fo%o,fo_o,foxo} (strings that  *)
+(*       contain LIKE wildcards / regex metacharacters as plain characters); *)
+(*       c2, c3 BOOLEAN; c4 BIGINT over {NULL,-1,0,1,2}       -> 405 rows    *)
 (* Row i (1-based) has in column c the value                                *)
 (*   ValsOf(kind c)[((i-1) div stride c) mod (number of values) + 1].       *)
 (***************************************************************************)
@@ -13,7 +16,8 @@ EXTENDS Expr
 
 SchA == <<"i", "i", "s", "b">>
 SchB == <<"i8", "i8", "i16", "i32">>
-SchOf(tbl) == IF tbl = "A" THEN SchA ELSE SchB
+SchC == <<"x", "b", "b", "i">>     \* table C: c1 VARCHAR over the second string pool (kind "x"), c2, c3 BOOLEAN, c4 BIGINT (405 rows)
+SchOf(tbl) == IF tbl = "A" THEN SchA ELSE IF tbl = "B" THEN SchB ELSE SchC
 
 ValsOf(k) ==
   CASE k = "i" -> <<Null, I(0 - 1), I(0), I(1), I(2)>>
@@ -22,9 +26,10 @@ ValsOf(k) ==
     [] k = "i8" -> <<Null, I(0 - 128), I(0 - 1), I(0), I(1), I(127)>>
     [] k = "i16" -> <<Null, I(0 - 32768), I(1), I(32767)>>
     [] k = "i32" -> <<Null, I(1), I(300)>>
+    [] k = "x" -> <<Null, XStr(1), XStr(2), XStr(3), XStr(4), XStr(5), XStr(6), XStr(7), XStr(8)>>
 LensOf(tbl) == [c \in 1..4 |-> Len(ValsOf(SchOf(tbl)[c]))]
-StridesOf(tbl) == IF tbl = "A" THEN <<1, 5, 25, 100, 300>> ELSE <<1, 6, 36, 144, 432>>
-ASSUME \A tbl \in {"A", "B"} : \A c \in 1..4 : StridesOf(tbl)[c + 1] = StridesOf(tbl)[c] * LensOf(tbl)[c]
+StridesOf(tbl) == IF tbl = "A" THEN <<1, 5, 25, 100, 300>> ELSE IF tbl = "B" THEN <<1, 6, 36, 144, 432>> ELSE <<1, 9, 27, 81, 405>>
+ASSUME \A tbl \in {"A", "B", "C"} : \A c \in 1..4 : StridesOf(tbl)[c + 1] = StridesOf(tbl)[c] * LensOf(tbl)[c]
 NRowsOf(tbl) == StridesOf(tbl)[5]
 RowAt(tbl, i) == [c \in 1..4 |-> ValsOf(SchOf(tbl)[c])[(((i - 1) \div StridesOf(tbl)[c]) % LensOf(tbl)[c]) + 1]]
 RowsOf(tbl) == [i \in 1..NRowsOf(tbl) |-> RowAt(tbl, i)]
